@@ -621,20 +621,75 @@ def run_crash(fs, cache, k, mode, bufsize):
     return steps
 
 
-def run_unserialisable(fs, cache, entries, index):
-    """the save fails by itself: one attribute value cannot be written as
-    JSON.  -> Steps marked dead, or None if save_cache coped with it"""
+class Unrepresentable:
+    """an attribute value of a type json knows nothing about"""
+
+
+def poison_value(kind):
+    import numpy as np
+    return {"set": {1, 2}, "npint": np.int64(7), "bytes": b"\x00raw",
+            "object": Unrepresentable()}[kind]
+
+
+def run_unserialisable(fs, cache, entries, index, kind="set"):
+    """the save fails by itself, inside the JSON encoder: one attribute value
+    (as a file handler may put it into FileInfo.attr) cannot be written as
+    JSON.  -> Steps marked dead if save_cache raised TypeError / ValueError,
+    or None if it returned (with or without a warning)"""
     victim = entries[index % len(entries)]["path"]
-    fs.info_cache[victim].attr["poison"] = {1, 2}
+    fs.info_cache[victim].attr["poison"] = poison_value(kind)
     steps = Steps(mode="count")
     try:
-        fs.save_cache(cache)
+        with Recorder():
+            fs.save_cache(cache)
     except (TypeError, ValueError):
         steps.dead = True
         steps.dead_before = "write"
     finally:
         del fs.info_cache[victim].attr["poison"]
     return steps if steps.dead else None
+
+
+def judge_after_returned_save(ctx, root, cache, old_raw, old_model, new_model,
+                              detail):
+    """save_cache returned although one value is not representable: the file
+    is the previous complete version, or a complete document of the new
+    content (whatever became of the unrepresentable attribute itself)"""
+    from typhon.files import FileSet
+    if not os.path.exists(cache):
+        ctx.check(old_raw is None, "crash/cache-file-lost",
+                  "%s: the cache file does not exist any more" % detail)
+        return "absent"
+    raw = read_file(cache)
+    dead = Steps(mode="count")
+    dead.dead, dead.dead_before = True, "write"
+    if old_raw is not None and raw == old_raw:
+        return judge_after_crash(ctx, root, cache, old_raw, old_model,
+                                 new_model, dead, "crash", detail)
+    try:
+        ok = isinstance(json.loads(raw.decode("utf-8")), list)
+    except (UnicodeDecodeError, ValueError):
+        ok = False
+    ctx.check(ok, "crash/truncated-or-mixed-document", lambda: (
+        "%s: save_cache returned; the cache file holds neither the previous "
+        "bytes nor a JSON array: %d bytes %r ... (previous: %s bytes)" % (
+            detail, len(raw), raw[-120:],
+            None if old_raw is None else len(old_raw))))
+    expected = model_snapshot(new_model)
+    with Recorder() as rec:
+        fs2 = FileSet(template_in(root))
+        fs2.load_cache(cache)
+    got = snapshot(fs2)
+    for key, (path, times, attr) in got.items():
+        if isinstance(attr, dict) and "poison" in attr:
+            attr = dict(attr)
+            del attr["poison"]
+            got[key] = (path, times, attr)
+    ctx.check(same_state(got, expected) and not rec.texts,
+              "crash/not-the-new-content", lambda: (
+                  "%s: save_cache returned; load_cache gives %s; warnings=%r"
+                  % (detail, diff_state(got, expected), rec.texts)))
+    return "new"
 
 
 def judge_after_crash(ctx, root, cache, old_raw, old_model, new_model, steps,
@@ -711,9 +766,21 @@ def check_crash(case, ctx):
             put_entries(fs, new)
             new_model = entries_to_model(new)
             if mode == "unserialisable":
-                steps = run_unserialisable(fs, cache, new, k)
+                kind = case.get("poison", "set")
+                ctx.label("poison-" + kind, "poison-at-%s" % (
+                    "first" if k % len(new) == 0 else
+                    "last" if k % len(new) == len(new) - 1 else "middle"))
+                steps = run_unserialisable(fs, cache, new, k, kind)
                 if steps is None:
-                    ctx.label("unserialisable-accepted")
+                    ctx.label("unserialisable-save-returned")
+                    outcome = judge_after_returned_save(
+                        ctx, root, cache, old_raw, old_model, new_model,
+                        "save with a %s attribute in entry %d of %d over %s"
+                        % (kind, k % len(new), len(new),
+                           "no file" if old is None
+                           else "%d old entries" % len(old)))
+                    ctx.label("file-" + outcome)
+                    ctx.nontrivial = bool(new and old is not None)
                     return
             else:
                 steps = run_crash(fs, cache, k, mode, case["buf"])
@@ -796,9 +863,18 @@ def crash_cases(n_contents, modes, salt, max_entries=5):
                             yield {"old": old, "new": new, "k": k,
                                    "mode": mode, "buf": buf}
                     if "exception" in modes:
+                        kinds = ("set", "npint", "bytes", "object")
                         for i in range(len(new)):
                             yield {"old": old, "new": new, "k": i,
-                                   "mode": "unserialisable", "buf": buf}
+                                   "mode": "unserialisable", "buf": buf,
+                                   "poison": kinds[(i + len(new)) % 4]}
+                        if len(new) > 1:
+                            # every kind also at the last entry
+                            for kind in kinds:
+                                yield {"old": old, "new": new,
+                                       "k": len(new) - 1,
+                                       "mode": "unserialisable", "buf": buf,
+                                       "poison": kind}
         finally:
             real_shutil.rmtree(root, ignore_errors=True)
     return gen
